@@ -23,6 +23,7 @@ var (
 	tDep        = ty{lean: "Dep"}
 	tFilterOpts = ty{lean: "Trans.FilterOpts"}
 	tPtrSet     = ty{lean: "List Nat", kind: "ptrset"}
+	tIndexOpts  = ty{lean: "IndexSig.Opts"}
 )
 
 func transTablesFor(versionConsts map[string]int64) *transTables {
@@ -39,34 +40,37 @@ func transTablesFor(versionConsts map[string]int64) *transTables {
 			"[]*repositoryPackage":          listOf(tPkg),
 			"map[*RepositoryPackage]string": tPtrSet, // only membership of a package is read: the set of the ids
 			"*filterOptions":                tFilterOpts,
+			"*indexOpts":                    tIndexOpts,
 		},
 		fields: map[fieldKey]fieldVal{
-			{"Pkg", "Name"}:                   {".name", tText},
-			{"Pkg", "Version"}:                {".version", tText},
-			{"Pkg", "Origin"}:                 {".origin", tText},
-			{"Pkg", "pinnedName"}:             {".pin", tText},
-			{"Pkg", "ProviderPriority"}:       {".priority", tNat},
-			{"Pkg", "Provides"}:               {".provides", listOf(tText)},
-			{"Pkg", "Repository()"}:           {"", tPkgRepo},
-			{"Pkg", "RepositoryPackage"}:      {"", tPkg}, // the embedded *RepositoryPackage of a repositoryPackage
-			{"Pkg", "URL()"}:                  {"@Resolver.Pkg.url", tText},
-			{"Trans.FilterOpts", "allowPin"}:  {".allowPin", tText},
-			{"Trans.FilterOpts", "preferPin"}: {".preferPin", tText},
-			{"Trans.FilterOpts", "version"}:   {".version", tText},
-			{"Trans.FilterOpts", "installed"}: {".installed", tOptPkg},
-			{"Trans.FilterOpts", "compare"}:   {".compare", tDep},
-			{"Pkg.repository", "URI"}:         {".repo", tText},
-			{"Version", "numbers"}:            {".numbers", listOf(tNat)},
-			{"Version", "letter"}:             {".letter", tNat},
-			{"Version", "preSuffix"}:          {".pre", tNat},
-			{"Version", "preSuffixNumber"}:    {".preNum", tNat},
-			{"Version", "postSuffix"}:         {".post", tNat},
-			{"Version", "postSuffixNumber"}:   {".postNum", tNat},
-			{"Version", "revision"}:           {".rev", tNat},
-			{"Constraint", "Name"}:            {".name", tText},
-			{"Constraint", "version"}:         {".version", tText},
-			{"Constraint", "dep"}:             {".dep", tDep},
-			{"Constraint", "pin"}:             {".pin", tText},
+			{"Pkg", "Name"}:                         {".name", tText},
+			{"Pkg", "Version"}:                      {".version", tText},
+			{"Pkg", "Origin"}:                       {".origin", tText},
+			{"Pkg", "pinnedName"}:                   {".pin", tText},
+			{"Pkg", "ProviderPriority"}:             {".priority", tNat},
+			{"Pkg", "Provides"}:                     {".provides", listOf(tText)},
+			{"Pkg", "Repository()"}:                 {"", tPkgRepo},
+			{"Pkg", "RepositoryPackage"}:            {"", tPkg}, // the embedded *RepositoryPackage of a repositoryPackage
+			{"Pkg", "URL()"}:                        {"@Resolver.Pkg.url", tText},
+			{"Trans.FilterOpts", "allowPin"}:        {".allowPin", tText},
+			{"Trans.FilterOpts", "preferPin"}:       {".preferPin", tText},
+			{"Trans.FilterOpts", "version"}:         {".version", tText},
+			{"Trans.FilterOpts", "installed"}:       {".installed", tOptPkg},
+			{"IndexSig.Opts", "ignoreSignatures"}:   {".ignoreSignatures", tBool},
+			{"IndexSig.Opts", "noSignatureIndexes"}: {".noSignatureIndexes", listOf(tText)},
+			{"Trans.FilterOpts", "compare"}:         {".compare", tDep},
+			{"Pkg.repository", "URI"}:               {".repo", tText},
+			{"Version", "numbers"}:                  {".numbers", listOf(tNat)},
+			{"Version", "letter"}:                   {".letter", tNat},
+			{"Version", "preSuffix"}:                {".pre", tNat},
+			{"Version", "preSuffixNumber"}:          {".preNum", tNat},
+			{"Version", "postSuffix"}:               {".post", tNat},
+			{"Version", "postSuffixNumber"}:         {".postNum", tNat},
+			{"Version", "revision"}:                 {".rev", tNat},
+			{"Constraint", "Name"}:                  {".name", tText},
+			{"Constraint", "version"}:               {".version", tText},
+			{"Constraint", "dep"}:                   {".dep", tDep},
+			{"Constraint", "pin"}:                   {".pin", tText},
 		},
 		calls: map[string]callVal{
 			"recv.getDepVersionForName":          {lean: "getDepVersionForName", t: tText},
@@ -77,6 +81,7 @@ func transTablesFor(versionConsts map[string]int64) *transTables {
 			"(Dep).satisfies":                    {lean: "satisfies", t: tBool},
 			"cmp.Compare":                        {lean: "Trans.cmpCompare", t: tInt},
 			// path vetting (C18): the lexical path functions of Model/Path.lean and Model/Confine.lean
+			"IndexURL":          {lean: "IndexSig.indexURL", t: tText},
 			"filepath.Clean":    {lean: "Path.clean", t: tText},
 			"filepath.Dir":      {lean: "Path.dir", t: tText},
 			"filepath.Join":     {lean: "Path.join2", t: tText}, // two arguments (more do not type-check in Lean)
@@ -118,6 +123,9 @@ func transFiles() []transFile {
 	const commonGo, rwosfsGo, cacheGo = "pkg/apk/apk/common.go", "pkg/apk/fs/rwosfs.go", "pkg/apk/apk/cache.go"
 	within := func(n string) map[string]callVal { return map[string]callVal{"isWithin": {lean: n, t: tBool}} }
 	return []transFile{
+		{out: "TransIndexSig", imports: []string{"Apko.Model.IndexSig", "Apko.Model.TransPrelude"}, prefix: "index.go", targets: []transTarget{
+			{file: "pkg/apk/apk/index.go", fn: "shouldCheckSignatureForIndex", lean: "shouldCheckSignatureForIndex"},
+		}},
 		{out: "TransConfine", imports: []string{"Apko.Model.Confine", "Apko.Model.TransPrelude"}, prefix: "common.go", targets: []transTarget{
 			{file: commonGo, fn: "isWithin", lean: "isWithinApk"},
 			{file: commonGo, fn: "sanitizeArchivePath", lean: "sanitizeArchivePath", calls: within("isWithinApk")},
